@@ -360,6 +360,13 @@ def run_smt(sc):
     return finish(rec, "smt", sc, cfg, returned=ret, final=final_digests(**mods), error=err)
 
 
+# D-UCB hyper-parameters differ from scenario to scenario (a selector given by NAME must be built from the values of
+# THIS call: what an earlier call in the process passed is no input of a run)
+_DUCB = {"A": dict(r_max=200.0, ducb_gamma=0.5, xi=0.25), "B": dict(r_max=50.0, ducb_gamma=0.75, xi=0.5),
+         "C": dict(r_max=100.0, ducb_gamma=0.25, xi=0.125), "D": dict(r_max=20.0, ducb_gamma=0.875, xi=1.0),
+         "M": dict(r_max=10.0, ducb_gamma=0.875, xi=2.0)}
+
+
 @routine("active_mt")
 def run_active_mt(sc):
     from rl_blox.algorithm import ddpg
@@ -373,7 +380,7 @@ def run_active_mt(sc):
     logger = recording_logger(rec)
     train_st = functools.partial(ddpg.train_ddpg, gamma=0.5, tau=0.25, batch_size=sc["batch"], exploration_noise=0.5, **parts)
     with _probing(rec, base):
-        res, err = guarded(lambda: train_active_mt(tasks, _traced(rec, base, train_st), buf, r_max=200.0, ducb_gamma=0.5, xi=0.25,
+        res, err = guarded(lambda: train_active_mt(tasks, _traced(rec, base, train_st), buf, **_DUCB.get(sc.get("label"), _DUCB["A"]),
                                                    task_selector=sc.get("task_selector", "Monotonic Progress"), total_timesteps=sc["budget"],
                                                    scheduling_interval=1, learning_starts=sc["warm"], seed=sc["seed"], logger=logger, progress_bar=False))
     cfg = _sched_cfg("active_mt", sc, explore_only_in_warmup=False, ulpk=2, trained=["policy", "q"], targets=["policy_target", "q_target"], rules=_ddpg_rules(sc))
